@@ -236,7 +236,7 @@ func (fs *FilterSession) servedHashes() map[chainhash.Hash]map[chainhash.Hash]bo
 			if !ok {
 				continue
 			}
-			stop := fs.G.ByHash[cf.StopHash]
+			stop := fs.G.Lookup(cf.StopHash)
 			if stop == nil {
 				continue
 			}
@@ -301,7 +301,7 @@ func CheckC03(fs *FilterSession, st *StepObs, final bool) []Finding {
 	prov := fs.Provable()
 	for h := from; h < len(pf) && h < len(post); h++ {
 		bh := post[h].BlockHash()
-		nd := fs.G.ByHash[bh]
+		nd := fs.G.Lookup(bh)
 		if nd == nil {
 			out = append(out, Finding{"c03/unknown-block", "stored block unknown to the generator"})
 			break
@@ -334,7 +334,7 @@ func CheckC03(fs *FilterSession, st *StepObs, final bool) []Finding {
 	// Hard-coded filter checkpoints.
 	for _, cph := range fs.Plan.FilterCPs {
 		if int(cph) < len(pf) && int(cph) < len(post) {
-			nd := fs.G.ByHash[post[cph].BlockHash()]
+			nd := fs.G.Lookup(post[cph].BlockHash())
 			want := nd.FilterHeader
 			if fs.Plan.FalseCP {
 				want[0] ^= 0xff
@@ -394,7 +394,7 @@ func (fs *FilterSession) checkBans(pf []chainhash.Hash, post []wire.BlockHeader)
 		}
 		told := false
 		for bh := range l.Told {
-			nd := fs.G.ByHash[bh]
+			nd := fs.G.Lookup(bh)
 			if nd != nil && int(nd.Height) < len(pf) && int(nd.Height) < len(post) && post[nd.Height].BlockHash() == bh {
 				told = true
 			}
